@@ -967,6 +967,8 @@ def op_name(op):
         return "%s.%s" % (via, op["meth"].strip("_"))
     if op["kind"] == "ph_insert":
         return "placeholder.insert_" + op["what"]
+    if op["kind"] == "foreign":
+        return "<state:%s>" % op["what"]
     return op["kind"]
 
 
@@ -1003,6 +1005,12 @@ def exec_op(prs, op):
         return "skip"
     slide = slides[op["s"] % len(slides)]
     k = op["k"]
+    if kind == "foreign":
+        cand = pick(SELECTORS[op["sel"]](slide), k)
+        if cand is None:
+            return "skip"
+        op["via"] = cand[0]
+        return "ok" if FOREIGN[op["what"]][1](cand[1]()) else "skip"
     if kind == "set":
         cand = pick(SELECTORS[op["sel"]](slide), k)
         if cand is None:
@@ -1154,6 +1162,87 @@ def gen_op_live(rng, prs):
                     continue
         return op
     return op
+
+
+# ============================================================================ start states python-pptx never writes
+A_NS = "http://schemas.openxmlformats.org/drawingml/2006/main"
+
+
+def _a(fragment):
+    from lxml import etree
+    return etree.fromstring('<a:x xmlns:a="%s">%s</a:x>' % (A_NS, fragment))[0]
+
+
+def _swap(parent, old_local, fragment):
+    """replace the child a:<old_local> of parent by the schema-valid fragment (same position)"""
+    old = parent.find("{%s}%s" % (A_NS, old_local)) if parent is not None else None
+    if old is None:
+        return False
+    new = _a(fragment)
+    old.addprevious(new)
+    parent.remove(old)
+    return True
+
+
+def _foreign_gradpath(fill):
+    """a path (radial / rectangular) gradient, as PowerPoint writes it: a:gradFill/a:path instead of a:lin"""
+    fill.gradient()
+    g = fill._xPr.find("{%s}gradFill" % A_NS)
+    return _swap(g, "lin", '<a:path path="circle"><a:fillToRect l="50000" t="50000" r="50000" b="50000"/></a:path>')
+
+
+def _foreign_custdash(line):
+    """a custom dash pattern: a:ln/a:custDash, the other member of the choice with a:prstDash"""
+    import pptx.enum.dml as ed
+    line.dash_style = ed.MSO_LINE_DASH_STYLE.DASH
+    return _swap(line._ln, "prstDash", '<a:custDash><a:ds d="300000" sp="100000"/></a:custDash>')
+
+
+def _foreign_sysclr(fill):
+    """a solid fill whose colour is a system colour (a:sysClr), a member of the colour choice python-pptx never writes"""
+    from pptx.dml.color import RGBColor
+    fill.solid()
+    fill.fore_color.rgb = RGBColor(1, 2, 3)
+    sf = fill._xPr.find("{%s}solidFill" % A_NS)
+    return _swap(sf, "srgbClr", '<a:sysClr val="windowText" lastClr="000000"/>')
+
+
+def _foreign_prstclr(fill):
+    fill.solid()
+    from pptx.dml.color import RGBColor
+    fill.fore_color.rgb = RGBColor(1, 2, 3)
+    sf = fill._xPr.find("{%s}solidFill" % A_NS)
+    return _swap(sf, "srgbClr", '<a:prstClr val="red"><a:alpha val="50000"/></a:prstClr>')
+
+
+# name -> (selector whose object is put into the state, injector(object) -> bool, selectors whose operations follow)
+FOREIGN = {
+    "gradpath": ("fill", _foreign_gradpath, ("fill", "gstop")),
+    "custdash": ("line", _foreign_custdash, ("line",)),
+    "sysclr": ("fill", _foreign_sysclr, ("fill", "color")),
+    "prstclr": ("fill", _foreign_prstclr, ("fill", "color")),
+}
+
+
+def foreign_ops(what, k, rng):
+    """setup, then for every operation of the follow-up selectors: put candidate k into the foreign state (the
+    harness does that with lxml: a schema-valid state that only other producers write) and apply the operation"""
+    sel, _inj, follow = FOREIGN[what]
+    ops = pair_setup_ops()
+    table = [("set", t) for t in SETTERS_T if t[0] in follow] + [("call", t) for t in CALLS_T if t[0] in follow]
+    for kind, t in table:
+        ops.append({"kind": "foreign", "s": PAIR_SLIDE, "k": k, "sel": sel, "what": what, "harness": True})
+        # the follow-up operation addresses the same object: the fill itself, or (colour / stop selectors) the first
+        # candidate derived from it -- candidates of those selectors are listed in the order of sel_fills
+        kk = k if t[0] == sel else None
+        for _ in range(2):
+            if kind == "set":
+                ops.append({"kind": "set", "s": PAIR_SLIDE, "k": k if kk is not None else rng.randint(0, 40), "sel": t[0], "attr": t[1], "val": t[2](rng)})
+            else:
+                ops.append({"kind": "call", "s": PAIR_SLIDE, "k": k if kk is not None else rng.randint(0, 40), "sel": t[0], "meth": t[1], "args": t[2](rng)})
+            if kk is not None:
+                break
+    return ops
 
 
 # ============================================================================ ordered pairs of operations on ONE object
@@ -1473,7 +1562,9 @@ def _worker(job):
     rng = random.Random(seed)
     rec = {}
     try:
-        if isinstance(nops, tuple):
+        if isinstance(nops, tuple) and nops[0] == "foreign":
+            r = run_sequence(V, snap, deck, foreign_ops(nops[1], nops[2], rng), record=rec)
+        elif isinstance(nops, tuple):
             r = run_sequence(V, snap, deck, pair_ops(nops[1], nops[2], rng), record=rec)
         else:
             r = run_sequence(V, snap, deck, None, rng, nops, record=rec)
@@ -1482,7 +1573,11 @@ def _worker(job):
     found = []
     seen = set()
     overflow_candidates = []
+    harness_bad = []
     for (j, name, ne, h) in r["events"]:
+        if r["ops"][j].get("harness"):
+            harness_bad.append((op_name(r["ops"][j]), name, [list(e) for e in ne]))
+            continue
         for e in ne:
             sig, cand_over = base_sig(r, j, e)
             if sig in seen:
@@ -1542,7 +1637,7 @@ def _worker(job):
     nsnap = len(_W["reported"]) - _W.get("counted", 0)
     _W["counted"] = _W.get("counted", 0) + nsnap
     base_bad = {n: [list(x) for x in snap.lx.get(h) or []] for n, h in r["base"].items() if snap.lx.get(h)}
-    return {"idx": idx, "deck": deck, "ops": r["ops"], "outcomes": r["outcomes"], "found": found, "save_new": save_new,
+    return {"idx": idx, "deck": deck, "ops": r["ops"], "outcomes": r["outcomes"], "found": found, "save_new": save_new, "harness_bad": harness_bad,
             "mutated": r["mutated_after_exception"], "ood_accepted": r["ood_accepted"], "disagreements": dis, "nsnap": nsnap, "base_bad": base_bad,
             "sites": dict(_W["tracer"].sites), "nparts": len(r["final"]),
             "changed": sum(1 for n, h in r["final"].items() if r["base"].get(n) != h)}
@@ -1783,6 +1878,10 @@ def jobs_for(tier, seed):
         jobs.append((i, deck, seed * 1000003 + i, nops if i % 7 else nops * 2))
     # every ordered pair of operations of one selector, back to back on the same object
     jobs += pair_jobs(len(jobs), seed, 2 if tier == "quick" else 8, 2 if tier == "quick" else 4)
+    # states only other producers write (path gradients, custom dashes, system / preset colours), then every operation
+    for what in sorted(FOREIGN):
+        for k in ((0, 3, 7) if tier == "quick" else range(14)):      # background fills first, then shapes, cells, fonts, series
+            jobs.append((len(jobs), GENERATED, seed * 1000003 + 104729 * len(jobs), ("foreign", what, k)))
     return jobs
 
 
@@ -1893,6 +1992,9 @@ def run(ck, tier, rng):
         for op, outc in zip(r["ops"], r["outcomes"]):
             klass = op_name(op) + (":rejected" if outc.startswith("exc") else ":skipped" if outc == "skip" else "")
             ck.count((r["deck"], json.dumps(op, sort_keys=True, default=str)), outc != "skip", klass)
+        for hb in r.get("harness_bad", [])[:1]:
+            ck.violation("harness-foreign-state", "the start state %s put in place by the harness is itself not schema-valid in %s: %s" % tuple(hb),
+                         {"theorem_or_correspondence": "observed part (harness: foreign start states)", "detail": hb}, concrete=False)
         for f in r["found"]:
             findings.setdefault(f["sig"], []).append((len(f["min_ops"]), r["deck"], f))
         for k, v in r["sites"].items():
@@ -1954,7 +2056,7 @@ def run(ck, tier, rng):
     return ck.finish(
         rule="random public-API operation sequences (%d sequences x 10 or 20 operations, generated against the live state so that most operations have a target; "
              "default template every 3rd/4th sequence, every corpus deck round-robin, every 8th sequence a generated start deck whose slides and layouts carry p:bg/p:bgRef; "
-             "background operations on slide, layout and master have their own share of the alphabet; plus, per kind of object, walks on a populated slide in which every ORDERED PAIR of that kind's setters and methods is applied back to back to the same object); after EVERY operation every XML part is serialised and validated "
+             "background operations on slide, layout and master have their own share of the alphabet; plus, per kind of object, walks on a populated slide in which every ORDERED PAIR of that kind's setters and methods is applied back to back to the same object, and every operation of fills, stops, colours and lines applied to objects the harness first puts into a schema-valid state only other producers write: path gradient, custom dash, system colour, preset colour); after EVERY operation every XML part is serialised and validated "
              "(libxml2 oracle; Coq validator for correspondence), and the saved package at the end of every sequence; non-trivial = the operation had a target "
              "(was executed or rejected)" % nseq,
         trusted_base=TB, assumptions=ASSUME,
